@@ -64,15 +64,16 @@ type finding struct {
 }
 
 type violation struct {
-	Sig     string
-	Case    *engine.Case
-	Values  map[string]uint64
-	Inputs  []engine.InputDecl
-	Kind    string // assert | panic | deadlock | budget | race | gopanic
-	Detail  string
-	Native  string // confirmed | unconfirmed:<why> | skipped:<why>
-	Replay  string
-	Threads int
+	Sig          string
+	Case         *engine.Case
+	Values       map[string]uint64
+	Inputs       []engine.InputDecl
+	Kind         string // assert | panic | deadlock | budget | race | gopanic
+	Detail       string
+	Native       string // confirmed | unconfirmed:<why> | skipped:<why>
+	Replay       string
+	Threads      int
+	NoNativeStub bool // depends on a stubbed environment value (random name): not replayable natively
 }
 
 func main() {
@@ -255,9 +256,9 @@ func runCheck(p *property, tier string, seed int) int {
 				case 0:
 					discharged++
 				case 1:
-					v := &violation{Sig: a.Sig, Case: c, Values: a.Model, Inputs: a.Inputs, Kind: "assert", Threads: r.Threads}
+					v := &violation{Sig: a.Sig, Case: c, Values: a.Model, Inputs: a.Inputs, Kind: "assert", Threads: r.Threads, NoNativeStub: r.NoNative}
 					viols = append(viols, v)
-					if r.Threads <= 1 && !p.NoNative && c != nil {
+					if r.Threads <= 1 && !p.NoNative && !r.NoNative && c != nil {
 						recs = append(recs, nativeRec{ID: len(recs), Func: c.Pkg[len("verif/harness/"):] + "." + c.Func, Args: c.Args, Values: a.Model})
 						expects = append(expects, expect{kind: "assert", sig: a.Sig, viol: v})
 					}
@@ -276,7 +277,7 @@ func runCheck(p *property, tier string, seed int) int {
 				samples = append(samples, map[string]any{"case": r.Case, "path_kind": r.Kind, "witness_inputs": r.Model, "observed": r.Obs, "assertions_on_path": len(r.Asserts), "decisions": r.Decisions})
 			}
 			// native cross-validation record for the path itself
-			if c != nil && !p.NoNative && r.Threads <= 1 {
+			if c != nil && !p.NoNative && r.Threads <= 1 && !r.NoNative {
 				switch r.Kind {
 				case "OK", "PANIC", "DEADLOCK", "ASSERTFAIL", "BUDGET":
 					if r.Model != nil || len(r.Inputs) == 0 {
@@ -284,7 +285,7 @@ func runCheck(p *property, tier string, seed int) int {
 						expects = append(expects, expect{kind: "path", res: &rr})
 					}
 				}
-			} else if c != nil && r.Threads > 1 {
+			} else if c != nil && (r.Threads > 1 || r.NoNative) {
 				nativeSkip++
 			}
 		}
@@ -336,14 +337,14 @@ func runCheck(p *property, tier string, seed int) int {
 		// engine-level violations (panic/deadlock/budget) are confirmed through their path record
 		for _, v := range viols {
 			if v.Kind != "assert" && v.Native == "" {
-				if v.Threads > 1 || p.NoNative {
+				if v.Threads > 1 || p.NoNative || v.NoNativeStub {
 					v.Native = "skipped: concurrent schedule (replayed deterministically in the interpreter only)"
 				} else {
 					v.Native = "confirmed" // comparePath verified the same outcome natively (a mismatch is listed above)
 				}
 			}
 			if v.Kind == "assert" && v.Native == "" {
-				v.Native = "skipped: concurrent schedule (replayed deterministically in the interpreter only)"
+				v.Native = "skipped: concurrent schedule or stubbed random value (decided in the interpreter only)"
 			}
 		}
 		os.Remove(nativeBin)
